@@ -19,10 +19,21 @@ pub fn re_deref_stub(_s: &crate::dlt::RE_NEW_LINE) -> &regex::Regex {
 /// get-log-info response: status concrete (the parser's format switches on it), byte order and payload bytes symbolic,
 /// payload length symbolic <= N: no panic, no overflow of offset/avail, result bounded by the announced counts
 fn log_info<const N: usize>(status: u8) {
-    let pl: [u8; N] = kani::any();
+    log_info_cnt::<N>(status, None)
+}
+
+/// `cnt`: Some(c) fixes the announced number of application ids to the CONCRETE value c (so that the parser's
+/// Vec::with_capacity(count) has a concrete size - a symbolic-size allocation is what costs ~20 GB); everything else symbolic
+fn log_info_cnt<const N: usize>(status: u8, cnt_fixed: Option<u16>) {
+    let mut pl: [u8; N] = kani::any();
     let plen: usize = kani::any();
     kani::assume(plen <= N);
     let big: bool = kani::any();
+    if let Some(c) = cnt_fixed {
+        let b = if big { c.to_be_bytes() } else { c.to_le_bytes() };
+        pl[0] = b[0];
+        pl[1] = b[1];
+    }
     if plen >= 2 {
         // announced number of application ids <= 3: the parser pre-allocates a Vec of that many entries, and an allocation of
         // symbolic size costs CBMC ~20 GB (probed); with 8..14 payload bytes at most 2 entries can be present anyway.
@@ -60,6 +71,23 @@ macro_rules! log_info_h {
     };
 }
 log_info_h!(c03_u3_log_info_s8_12, 12, 8);
+macro_rules! log_info_cnt_h {
+    ($name:ident, $n:expr, $status:expr, $cnt:expr) => {
+        #[kani::proof]
+        #[kani::unwind(5)]
+        #[kani::stub(encoding_rs::Encoding::decode_without_bom_handling, decode_stub)]
+        #[kani::stub(regex::Regex::replace_all, replace_all_stub)]
+        #[kani::stub(<crate::dlt::RE_NEW_LINE as std::ops::Deref>::deref, re_deref_stub)]
+        fn $name() {
+            log_info_cnt::<$n>($status, Some($cnt));
+        }
+    };
+}
+log_info_cnt_h!(c03_u3_log_info_s6_c1_14, 14, 6, 1);
+log_info_cnt_h!(c03_u3_log_info_s7_c1_16, 16, 7, 1);
+log_info_cnt_h!(c03_u3_log_info_s4_c1_13, 13, 4, 1);
+log_info_cnt_h!(c03_u3_log_info_s5_c1_13, 13, 5, 1);
+log_info_cnt_h!(c03_u3_log_info_s3_c2_14, 14, 3, 2);
 log_info_h!(c03_u3_log_info_s3_12, 12, 3);
 
 /// the three fixed-size user-defined payloads + the software-version length arithmetic: arbitrary bytes, any length <= 16
